@@ -9,7 +9,7 @@
    logged s               the LogCollector dictionary after the same call *)
 From Coq Require Import List ZArith NArith Bool String Permutation.
 From FIM Require Import Base.Str Gen.CollectGen Model.Collect11 Model.Collect11Spec
-  Proofs.Collect11Tables Proofs.Collect11Attrs Proofs.Collect11Main Proofs.Collect11Log Proofs.Collect11Pdp.
+  Proofs.Collect11Tables Proofs.Collect11Attrs Proofs.Collect11Main Proofs.Collect11Log Proofs.Collect11Pdp Proofs.Collect11Hist.
 Import ListNotations.
 
 (* ---------- the translator recognised the source; the dispatch tables have an arm for every entry ---------- *)
@@ -197,6 +197,90 @@ Theorem C11_run_keys_wellformed : forall ops m, run ops = Ok m -> NoDup (keys m)
 Proof. exact (fun ops m H => conj (proj1 (Inv_run ops m H)) (Inv_in_table m (Inv_run ops m H))). Qed.
 Print Assumptions C11_run_keys_wellformed.
 
+(* ---------- dispatch: every member class the topology API hands out (regenerated list) is routed by both collectors.
+   FULL STATEMENT (false of the current code):  forallb routed produced_classes = true.
+   PortMirrorService (a subclass of NetworkService, handed out by topo.network_services for every port mirror) is looked
+   up by exact class and rejected: known finding, proposed_fixes/C11-1.patch. ---------- *)
+Theorem C11_dispatch_classes_partial : forallb (fun c => routed c || smem_s c known_unrouted) produced_classes = true.
+Proof. exact dispatch_classes_partial_b. Qed.
+Print Assumptions C11_dispatch_classes_partial.
+
+Theorem C11_dispatch_classes_refuted : exists c, In c produced_classes /\ routed c = false.
+Proof. exact dispatch_classes_refuted_w. Qed.
+Print Assumptions C11_dispatch_classes_refuted.
+
+(* ---------- topology object vs serialized model: the ASM path walks the reloaded graph by class; for ANY enumeration
+   order of the same elements (and of each node's components) it yields the same attributes as the topology path.
+   What remains observed: serialize/load preserves the elements (C01/C02), validate() is the identity on a validated model. *)
+Theorem C11_asm_is_walk : forall g, run [OAsm g] = Ok (collected (slice_of_graph g)).
+Proof. exact run_asm. Qed.
+Print Assumptions C11_asm_is_walk.
+
+Theorem C11_asm_enumeration_independent : forall g g' k, graph_eqv g g' ->
+  Permutation (getk k (collected (slice_of_graph g))) (getk k (collected (slice_of_graph g'))).
+Proof. exact asm_enumeration_independent. Qed.
+Print Assumptions C11_asm_enumeration_independent.
+
+Theorem C11_topo_vs_asm : forall s g ma k, graph_eqv (graph_of_slice s) g -> run [OAsm g] = Ok ma ->
+  Permutation (getk k (collected s)) (getk k ma) /\ (In k (keys (collected s)) <-> In k (keys ma)).
+Proof. exact topo_vs_asm. Qed.
+Print Assumptions C11_topo_vs_asm.
+
+Theorem C11_log_topo_vs_asm : forall s g, graph_eqv (graph_of_slice s) g ->
+  log_run [OAsm g] = logged (slice_of_graph g) /\ slice_eqv s (slice_of_graph g).
+Proof. exact log_topo_vs_asm. Qed.
+Print Assumptions C11_log_topo_vs_asm.
+
+(* ---------- histories on a long-lived collector and a long-lived (edited) topology ---------- *)
+Theorem C11_history_total : forall es, hist_run es = Ok (hist_pure init_attrs es).
+Proof. exact hist_run_ok. Qed.
+Print Assumptions C11_history_total.
+
+(* a collector created for the occasion answers with a function of the CURRENT slice only *)
+Theorem C11_collect_history_memoryless : forall es mf outs i s,
+  hist_run es = Ok (mf, outs) -> nth_error es i = Some (HFresh s) -> nth_error outs i = Some (collected s).
+Proof. exact history_memoryless_run. Qed.
+Print Assumptions C11_collect_history_memoryless.
+
+(* the SAME collector fed several slices accumulates (ResourceAuthZAttributes._attributes: "list of values accumulated
+   across collected sources"): exactly the per-resource values of every slice it was fed, in order; the union of the
+   site sets; switch-p4 as soon as one of them had a switch - and nothing from collections made by other collectors *)
+Theorem C11_same_collector_per_resource : forall es mf outs k, hist_run es = Ok (mf, outs) -> In k multi_keys ->
+  getk k mf = flat_map (required_of k) (same_slices es).
+Proof. exact same_collector_multi. Qed.
+Print Assumptions C11_same_collector_per_resource.
+
+Theorem C11_same_collector_sites : forall es mf outs k v, hist_run es = Ok (mf, outs) -> In k set_keys ->
+  (In v (getk k mf) <-> exists s, In s (same_slices es) /\ In v (required_of k s)) /\ NoDup (getk k mf).
+Proof. exact same_collector_set. Qed.
+Print Assumptions C11_same_collector_sites.
+
+Theorem C11_same_collector_type : forall es mf outs, hist_run es = Ok (mf, outs) ->
+  getk A_RESOURCE_TYPE mf = [AS (if existsb has_switch (same_slices es) then S"switch-p4" else S"sliver")].
+Proof. exact same_collector_type. Qed.
+Print Assumptions C11_same_collector_type.
+
+Theorem C11_collect_twice_in_a_row : forall s k,
+  (In k multi_keys -> getk k (topo_pure (collected s) s) = getk k (collected s) ++ getk k (collected s)) /\
+  (In k set_keys -> getk k (topo_pure (collected s) s) = getk k (collected s)) /\
+  getk A_RESOURCE_TYPE (topo_pure (collected s) s) = getk A_RESOURCE_TYPE (collected s).
+Proof. exact twice_in_a_row. Qed.
+Print Assumptions C11_collect_twice_in_a_row.
+
+(* ---------- the log line (LogCollector.__str__): counts printed = counts tallied ---------- *)
+Theorem C11_log_summary_counts : forall s,
+  sm_vms (summary_of (logged s)) = tally_vms s /\ sm_cores (summary_of (logged s)) = tally_cores s /\
+  sm_p4s (summary_of (logged s)) = tally_switches s /\
+  (forall x, In x (sm_sites (summary_of (logged s))) <-> site_used s x) /\
+  (forall f, In f (sm_facs (summary_of (logged s))) <-> facility_used s f) /\
+  sm_comps (summary_of (logged s)) = map (fun kv => colon (fst kv) (str_of_Z (snd kv))) (l_comps (logged s)) /\
+  sm_svcs (summary_of (logged s))
+    = map (fun kv => colon (fst kv) (str_of_Z (snd kv))) (filter (fun kv => negb (str_eqb (fst kv) (S"OVS"))) (tally_services s)) /\
+  (forall key, dget key (sm_vmdetails (summary_of (logged s)))
+               = countb (str_eqb key) (map vmdetail_key (flat_map vm_caps (sl_nodes s)))).
+Proof. exact summary_counts. Qed.
+Print Assumptions C11_log_summary_counts.
+
 (* ---------- non-vacuity ---------- *)
 (* one site; an out-of-slice mirror, an in-slice mirror (mirrored port "p1" is a labelled service port of the
    slice) and an external service: the shape on which the pre-c22c27e code lost the mirror site *)
@@ -238,3 +322,38 @@ Example C11_nonvacuous_log :
   l_vm (logged ex_slice) = 1%Z /\ l_core (logged ex_slice) = 2%Z /\ dget (S"SmartNIC") (l_comps (logged ex_slice)) = 2%Z /\
   List.length (l_svcs (logged ex_slice)) = 3%nat /\ l_sites (logged ex_slice) = [S"RENC"] /\ l_facs (logged ex_slice) = [S"FAC1"].
 Proof. vm_compute. repeat split. Qed.
+
+Example C11_nonvacuous_history :
+  let es := [HSame ex_slice; HFresh ex_slice'; HSame ex_slice'] in
+  match hist_run es with
+  | Ok (mf, outs) => nth_error outs 1 = Some (collected ex_slice') /\
+                     getk A_RESOURCE_CPU mf = [AI 2%Z; AI 2%Z] /\ getk A_RESOURCE_MIRROR_SITE mf = [AS (S"RENC")] /\
+                     List.length outs = 3%nat
+  | Err _ => False
+  end.
+Proof. vm_compute. repeat split. Qed.
+
+Example C11_nonvacuous_asm :
+  let g := [GSvc ex_ext; GFac (S"FAC1"); GSvc ex_in; GPort (Some (S"p1")); GNode ex_node; GSvc ex_out] in
+  graph_eqv (graph_of_slice ex_slice) g /\ graph_of_slice ex_slice <> g /\
+  getk A_RESOURCE_MIRROR_SITE (collected (slice_of_graph g)) = [AS (S"RENC")].
+Proof.
+  split; [|split; [discriminate | vm_compute; reflexivity]].
+  exists [GSvc ex_ext; GFac (S"FAC1"); GSvc ex_in; GPort (Some (S"p1")); GNode ex_node; GSvc ex_out]. split.
+  - unfold graph_of_slice, ex_slice. cbn [sl_nodes sl_ports sl_svcs sl_facs map app].
+    apply Permutation_sym.
+    (* move each element of g to its place in the listing order *)
+    apply Permutation_trans with (GNode ex_node :: [GSvc ex_ext; GFac (S"FAC1"); GSvc ex_in; GPort (Some (S"p1")); GSvc ex_out]).
+    { apply Permutation_sym. apply (Permutation_middle [GSvc ex_ext; GFac (S"FAC1"); GSvc ex_in; GPort (Some (S"p1"))] [GSvc ex_out] (GNode ex_node)). }
+    apply perm_skip.
+    apply Permutation_trans with (GPort (Some (S"p1")) :: [GSvc ex_ext; GFac (S"FAC1"); GSvc ex_in; GSvc ex_out]).
+    { apply Permutation_sym. apply (Permutation_middle [GSvc ex_ext; GFac (S"FAC1"); GSvc ex_in] [GSvc ex_out] (GPort (Some (S"p1")))). }
+    apply perm_skip.
+    apply Permutation_trans with (GSvc ex_out :: [GSvc ex_ext; GFac (S"FAC1"); GSvc ex_in]).
+    { apply Permutation_sym. apply (Permutation_middle [GSvc ex_ext; GFac (S"FAC1"); GSvc ex_in] [] (GSvc ex_out)). }
+    apply perm_skip.
+    apply Permutation_trans with (GSvc ex_in :: [GSvc ex_ext; GFac (S"FAC1")]).
+    { apply Permutation_sym. apply (Permutation_middle [GSvc ex_ext; GFac (S"FAC1")] [] (GSvc ex_in)). }
+    apply Permutation_refl.
+  - repeat constructor; simpl; try reflexivity; unfold node_eqv; repeat split; apply Permutation_refl.
+Qed.
